@@ -25,7 +25,7 @@ class Harness:
         self.bounds = attrs.get("bounds", "")
         self.stub_note = attrs.get("stubs", "")
         self.timeout = int(attrs.get("timeout", "600"))
-        self.mem_gb = float(attrs.get("mem", "8"))
+        self.mem_gb = float(attrs.get("mem", "5"))
         self.finding = attrs.get("finding", "")
         self.unwind = unwind if unwind is not None else (int(attrs["unwind"]) if "unwind" in attrs else None)
         self.stubs = stubs
@@ -90,6 +90,7 @@ def load():
 SHARE = [
     (r"^c07_settings$", ["C16"]),
     (r"^c04_close_(pendingack|highpubrel)$", ["C06", "C15"]),
+    (r"^c15_close_current_k2_", ["C07", "C04"]),
     (r"^c04_current_k[0145]_preservenothing_q[12]$", ["C15"]),
     (r"^c04_current_k0_preserveacknowledged_q0$", ["C15"]),
     (r"^c04_current_k0_preserveall_q1$", ["C15", "C10"]),
